@@ -62,6 +62,30 @@ pub fn mask_arg_ids(s: &str) -> String {
     out
 }
 
+/// "g(12)" -> "g(_)"
+pub fn mask_scheme_ids(s: &str) -> String {
+    let b = s.as_bytes();
+    let mut out = String::with_capacity(s.len());
+    let mut i = 0;
+    while i < b.len() {
+        if s[i..].starts_with("g(") && (i == 0 || !(b[i - 1].is_ascii_alphanumeric() || b[i - 1] == b'_')) {
+            let mut j = i + 2;
+            while j < b.len() && b[j].is_ascii_digit() {
+                j += 1;
+            }
+            if j > i + 2 && j < b.len() && b[j] == b')' {
+                out.push_str("g(_");
+                i = j;
+                continue;
+            }
+        }
+        let ch = s[i..].chars().next().unwrap();
+        out.push(ch);
+        i += ch.len_utf8();
+    }
+    out
+}
+
 fn d_bytes(b: &[u8], full: bool) -> Value {
     let mut v = json!({"h": digest(b), "len": b.len()});
     if full {
@@ -107,7 +131,12 @@ pub fn observe(case: &Value) -> Value {
         Ok(Ok(s)) => {
             // second digest with the numeral after `arg` masked (mir/print.rs prints the raw Symbol id there: finding F22)
             let mut v = d_text(&s, full);
-            v["hm"] = json!(digest(mask_arg_ids(&s).as_bytes()));
+            let m = mask_arg_ids(&s);
+            v["hm"] = json!(digest(m.as_bytes()));
+            // third digest with the type-scheme numerals g(<n>) masked as well (finding F23)
+            let g = mask_scheme_ids(&m);
+            v["hg"] = json!(digest(g.as_bytes()));
+            v["generic"] = json!(g != m);   // the Mir retains a function with type-scheme variables
             v
         }
     };
